@@ -15,6 +15,9 @@ import Kanzi.Drv.Cli
 import Kanzi.Drv.Jobs
 import Kanzi.Drv.Image
 import Kanzi.Drv.Range
+import Kanzi.Drv.RLT
+import Kanzi.Drv.Ans1
+import Kanzi.Drv.CM
 
 open Kanzi
 
@@ -178,5 +181,8 @@ def main (args : List String) : IO UInt32 := do
   | ["cli"] => loop stdin stdout Kanzi.Drv.cli; return 0
   | ["jobs"] => loop stdin stdout Kanzi.Drv.jobs; return 0
   | ["range"] => loop stdin stdout Kanzi.Drv.range; return 0
+  | ["rlt"] => loop stdin stdout Kanzi.Drv.rlt; return 0
+  | ["ans1"] => loop stdin stdout Kanzi.Drv.ans1; return 0
+  | ["cmpred"] => loop stdin stdout Kanzi.Drv.cmpred; return 0
   | ["image"] => loop stdin stdout Kanzi.Drv.image; return 0
   | _ => IO.eprintln "usage: kmodel <norm>"; return 2
